@@ -21,9 +21,9 @@ def finding_key(mod, case, res):
 
 def evaluate(mod, cases):
     """cases (dicts from the harness) -> list of result dicts (same order)."""
+    pre = getattr(mod, "preamble", lambda cs: "")(cases)
     terms = [mod.coq_case(c) for c in cases]
-    return core.coq_eval(mod.HEADER, terms, mod.CASE_TYPE, mod.CHECK_FN,
-                         shard=getattr(mod, "SHARD", 250), preamble=getattr(mod, "preamble", lambda cs: "")(cases))
+    return core.coq_eval(mod.HEADER, terms, mod.CASE_TYPE, mod.CHECK_FN, shard=getattr(mod, "SHARD", 250), preamble=pre)
 
 
 def shrink(mod, case, res, budget_s=60):
